@@ -22,6 +22,7 @@ package c07
 
 import (
 	"fmt"
+	"slices"
 	"testing"
 	"testing/synctest"
 
@@ -99,6 +100,7 @@ func drawBothWays(rt *rapid.T) *scenario {
 	}
 	var opened [2][]protocol.ID // IDs host h requested so far which the other host accepted at that time
 	nonce := 0
+	pool := &listPool{}
 	opener := rapid.IntRange(0, 1).Draw(rt, "first-opener")
 	for i, n := 0, rapid.IntRange(2, 5).Draw(rt, "nrounds"); i < n; i++ {
 		r := round{KnowMode: "keep"} // the harness never touches a peerstore
@@ -121,8 +123,12 @@ func drawBothWays(rt *rapid.T) *scenario {
 		}
 		for j, k := 0, rapid.IntRange(1, 3).Draw(rt, "nopens"); j < k; j++ {
 			nonce++
-			req := drawRequestBothWays(rt, models[opener], models[1-opener], opened[1-opener])
-			r.Opens = append(r.Opens, openSpec{Req: req, Use: rapid.SampledFrom(useWeighted).Draw(rt, "use"), nonce: mix(sc.Key + uint64(nonce))})
+			// one pool for both hosts: the application that runs them keeps its request lists in one place
+			// and uses a list for opens by either host (i.e. to different peers)
+			req, list, clip := pool.draw(rt, func() []protocol.ID {
+				return drawRequestBothWays(rt, models[opener], models[1-opener], opened[1-opener])
+			})
+			r.Opens = append(r.Opens, openSpec{Req: req, List: list, Clip: clip, Use: rapid.SampledFrom(useWeighted).Draw(rt, "use"), nonce: mix(sc.Key + uint64(nonce))})
 		}
 		for _, o := range r.Opens {
 			for _, id := range o.Req {
@@ -133,6 +139,7 @@ func drawBothWays(rt *rapid.T) *scenario {
 		}
 		sc.Rounds = append(sc.Rounds, r)
 	}
+	sc.Lists = pool.lists
 	return sc
 }
 
@@ -196,12 +203,23 @@ func TestBothDirectionsSmall(t *testing.T) {
 								who := [2]string{"", "L"}
 								host := [2]string{"D", ""}
 								use := useKinds[(idx/2)%len(useKinds)]
-								r1 := round{KnowMode: "keep", Opener: who[first], Opens: []openSpec{{Req: req1, Use: useWrite, nonce: mix(uint64(idx)*8 + 1)}}}
-								r2 := round{KnowMode: "keep", Opener: who[1-first], Opens: []openSpec{{Req: req2, Use: use, nonce: mix(uint64(idx)*8 + 2)}}}
+								// the application keeps its request lists (each with one further entry behind the
+								// request): the list of the two later opens is passed by Q (to P) and then by P (to
+								// Q); when req1 and req2 are the same list, all three opens pass the one object
+								cp := func(l []protocol.ID) []protocol.ID { return append([]protocol.ID{}, l...) }
+								sc.Lists = [][]protocol.ID{append(cp(req1), "/c/1.0.0")}
+								l2 := 1
+								if !slices.Equal(req1, req2) {
+									sc.Lists = append(sc.Lists, append(cp(req2), "/c/1.0.0"))
+									l2 = 2
+								}
+								clip := idx%3 == 0
+								r1 := round{KnowMode: "keep", Opener: who[first], Opens: []openSpec{{Req: cp(req1), List: 1, Clip: clip, Use: useWrite, nonce: mix(uint64(idx)*8 + 1)}}}
+								r2 := round{KnowMode: "keep", Opener: who[1-first], Opens: []openSpec{{Req: cp(req2), List: l2, Clip: clip, Use: use, nonce: mix(uint64(idx)*8 + 2)}}}
 								if push == 1 {
 									r2.Ops = []lop{{Op: "set", Pid: Z, Host: host[first]}}
 								}
-								r3 := round{KnowMode: "keep", Opener: who[first], Opens: []openSpec{{Req: req2, Use: use, nonce: mix(uint64(idx)*8 + 3)}}}
+								r3 := round{KnowMode: "keep", Opener: who[first], Opens: []openSpec{{Req: cp(req2), List: l2, Clip: clip, Use: use, nonce: mix(uint64(idx)*8 + 3)}}}
 								sc.Rounds = []round{r1, r2, r3}
 								var oc *outcome
 								synctest.Test(t, func(t *testing.T) {
